@@ -8,8 +8,8 @@ import vlib
 from gen import i1_line, i2_line
 
 ID = "C10"
-LEAN_MODULES = ["NdInterp.Props.C10", "NdInterp.Props.C12", "NdInterp.Props.FormulaTie.TabBuild"]
-THEOREM_FILES = [("NdInterp/Props/C10.lean", "C10_"), ("NdInterp/Props/FormulaTie/TabBuild.lean", "FT_tab_")]
+LEAN_MODULES = ["NdInterp.Props.C10", "NdInterp.Props.C12", "NdInterp.Props.FormulaTie.TabBuild", "NdInterp.Props.FormulaTie.Ctl"]
+THEOREM_FILES = [("NdInterp/Props/C10.lean", "C10_"), ("NdInterp/Props/FormulaTie/TabBuild.lean", "FT_tab_"), ("NdInterp/Props/FormulaTie/Ctl.lean", "FT_ctl_")]
 RULE = ("the decision table of the statement, through model and real code (`build` entry): data rank (0, 1, 2, 3; static and dynamic), "
         "length vs the strategy's minimum (0..min+2), axis length (n-1, n, n+1), axis pattern (increasing; tie / swap / NaN at every position; "
         "decreasing; single element; default axis), boundary-array shape (ok / wrong leading / wrong trailing / wrong rank), periodic ends "
